@@ -416,11 +416,16 @@ _RL_CTX = None  # set by Gadget.__init__: the program in which callee names are 
 def _rl(e: ast.AST) -> Optional[Tuple[str, str]]:
     """(table text, value text) when e calls a reverse-lookup function (recognised by role, see
     common.as_reverse_lookup: a first-match scan of `table.items()` returning the key)"""
-    if not isinstance(e, ast.Call) or _RL_CTX is None:
+    if _RL_CTX is None:
         return None
-    from .common import reverse_lookup_call
+    from .common import reverse_lookup_call, see_through
 
     ctx, fn = _RL_CTX
+    if isinstance(e, ast.Name):
+        # a looked-up value kept in a local (hoisted out of a loop): read through it
+        e = see_through(ctx, fn, e) or e
+    if not isinstance(e, ast.Call):
+        return None
     r = reverse_lookup_call(ctx.prog, fn, e)
     if r is None or r[1] is None or r[2] is None:
         return None
